@@ -10,6 +10,20 @@ from lib import build, common
 from lib.common import Report, tier, VERIF, NCPU, pool_map, seed
 
 
+# programs that reach encoder paths no single-opcode program reaches (listing comparison only; they are not executed here):
+# memory displacements around the disp8/disp32 boundary (loadoff with a constant offset) and the constant-offset form of the
+# resampling loads with enough arrays that the offset register is one of r8-r15 (mov-immediate with REX.B)
+ENCODING_EXTRAS = [
+    ('c12_loadoffl_%d' % k, 'var dest 4 d1\nvar src 4 s1\nvar temp 4 t1\nvar const 4 c1 %x\ninsn loadoffl 0 t1 s1 c1\ninsn copyl 0 d1 t1\n' % k) for k in (28, 31, 32, 33, 64)
+] + [
+    ('c12_loadoffb_%d' % k, 'var dest 1 d1\nvar src 1 s1\nvar temp 1 t1\nvar const 4 c1 %x\ninsn loadoffb 0 t1 s1 c1\ninsn copyb 0 d1 t1\n' % k) for k in (112, 127, 128)
+] + [
+    ('c12_ldresnearl_const_2d', 'var dest 4 d1\nvar dest 4 d2\nvar src 4 s1\nvar temp 4 t1\nvar const 4 c1 3e8\nvar const 4 c2 10000\ninsn ldresnearl 0 t1 s1 c1 c2\ninsn copyl 0 d1 t1\ninsn copyl 0 d2 t1\n'),
+    ('c12_ldresnearl_const_3d', 'var dest 4 d1\nvar dest 4 d2\nvar dest 4 d3\nvar src 4 s1\nvar temp 4 t1\nvar const 4 c1 3e8\nvar const 4 c2 10000\ninsn ldresnearl 0 t1 s1 c1 c2\ninsn copyl 0 d1 t1\ninsn copyl 0 d2 t1\ninsn copyl 0 d3 t1\n'),
+    ('c12_ldreslinl_const_2d', 'var dest 4 d1\nvar dest 4 d2\nvar src 4 s1\nvar temp 4 t1\nvar const 4 c1 3e8\nvar const 4 c2 10000\ninsn ldreslinl 0 t1 s1 c1 c2\ninsn copyl 0 d1 t1\ninsn copyl 0 d2 t1\n'),
+]
+
+
 def assemble(asm_text, workdir, tag):
     s = os.path.join(workdir, tag + '.s')
     o = os.path.join(workdir, tag + '.o')
@@ -158,7 +172,7 @@ def main():
     from engines.x86sym import family
     from lib import x86run
     rep = Report('C12', 'translation_validation')
-    rep.bounds = dict(programs='the program family of C01 (quick: one form per opcode + extras) on sse, avx, mmx, default flags (thorough: reduced flag sets, short jumps, frame pointer)',
+    rep.bounds = dict(programs='the program family of C01 (quick: one form per opcode + extras) + encoder-path programs (loadoff with constant offsets around the disp8 boundary, constant-offset resampling loads with several destinations) on sse, avx, mmx, default flags (thorough: reduced flag sets, short jumps, frame pointer)',
                       comparison='instruction by instruction after decoding both byte strings; differing decodings compared semantically from a fully symbolic machine state')
     rep.assume('GNU as (binutils) is the standard assembler, objdump the decoder', '64-bit listings only (32-bit: outside)', 'NEON/MIPS/Altivec listings: no cross assembler in the image (outside)')
     t = tier()
@@ -171,7 +185,7 @@ def main():
     os.makedirs(work, exist_ok=True)
     jobs = []
     for target in ('sse', 'avx', 'mmx'):
-        fam = [(n, x) for n, x in x86run.select(family.family(ops, target), t, target)]
+        fam = [(n, x) for n, x in x86run.select(family.family(ops, target), t, target)] + [(n, 'program %s\n%send\n' % (n, body)) for n, body in ENCODING_EXTRAS]
         sets = [('default', dflt[target])]
         if t != 'quick':
             sets = family.reduced_flag_sets(target, dflt[target])
